@@ -68,9 +68,26 @@ class P(Prop):
                     parts.append("%d:%d:%s:%s:%s" % (st, en, hx(sz), hx(ty), hx(b)))
                 hspec = ";".join(hx(a) + ":" + hx(b_) for a, b_ in hs) or "-"
                 out.append("resprt %s %d %s %s %s # parts=%d" % (rnd.choice(["static", "inst"]), code, hx(rsn), hspec, ",".join(parts), k))
+            elif r < 0.65:
+                out.append(self.rp_struct_case(rnd))
             else:
                 out.append(self.rp_case(rnd, i))
         return out
+
+    def rp_struct_case(self, rnd):
+        """a valid multipart/byteranges serialisation with ONE structural element broken: the property asks for an error"""
+        bd = b"String_separator"; eol = b"\r\n"
+        bodies = [rnd.choice([b"abc", b"", b"x\r\n", b"\xff\xfe", b"line1\nline2\n", b"-" * 5, b"--", bytes(rnd.randrange(256) for _ in range(20)).replace(b"String", b"string")]) for _ in range(rnd.randint(1, 3))]
+        def part(b, blank=True, ctype=True, crange=True):
+            return (b"--" + bd + eol + (b"Content-Type: text/plain" + eol if ctype else b"") + (b"Content-Range: bytes 0-2/10" + eol if crange else b"") + (eol if blank else b"") + b)
+        kind = rnd.choice(["noopen", "garbled-open", "noclose", "noblank", "valid"])
+        ps = [part(b) for b in bodies]
+        if kind == "noopen": ps[0] = ps[0][len(b"--" + bd + eol):]
+        elif kind == "garbled-open": ps[0] = b"--X" + ps[0][3:]
+        elif kind == "noblank": j = rnd.randrange(len(ps)); ps[j] = part(b"zz" + bodies[j], blank=False)
+        text = eol.join(ps) + (b"" if kind == "noclose" else eol + b"--" + bd)
+        raw = b"HTTP/1.1 206 Partial Content\r\nContent-Type: multipart/byteranges; boundary=" + bd + b"\r\n\r\n" + text
+        return "rp %s # status=known struct=%s" % (hx(raw), kind)
 
     def rp_case(self, rnd, i):
         code, reason = rnd.choice(STATUSES + [(999, "Nope"), (200, "ok"), (200, "Okay"), (-1, "X"), (404, "OK"), (200, "Not Found"), (99, "Continue"), (600, "X"),
@@ -133,6 +150,11 @@ class P(Prop):
         if out is None or out.startswith(("CRASH", "PANIC")) or " | PANIC" in (out or ""):
             return "panic-or-crash"
         f = strip_meta(line).split(" ")
+        if f[0] == "rp" and meta(line).get("struct"):
+            k = meta(line)["struct"]
+            if k == "valid":
+                return None if out.startswith("OK") else "valid-multipart-response-rejected"
+            return None if out == "ERR" else "broken-multipart-structure-accepted-%s" % k
         if f[0] == "rp":
             raw = bytes.fromhex(f[1]) if len(f) > 1 else b""
             first = raw.split(b"\n")[0].replace(b"\r", b"")
